@@ -7,6 +7,7 @@ import Proofs.C15.Accept
 import Proofs.C15.SatSound
 import Proofs.C15.BoundSound
 import Model.C15.Decode
+import Proofs.C15.DecodeBack
 /-!
 # C15 — miniscript typing, compilation, read-back and satisfaction are consistent
 
@@ -391,12 +392,52 @@ example (E : EvalEnv) (k : Key) (σ : Bytes) (hσ : E.sigOK k σ = true) (y : Ms
   .or_i_l _ _ _ (.and_v _ _ _ _ (.wrap _ _ _ (by decide) (by decide)
     (.wrap _ _ _ (by decide) (by decide) (.pk_k k σ hσ))) .f1)
 
-/- T2' (read-back, full statement, NOT proved): for every well-typed `n`,
+/- T2' (read-back, full statement, NOT proved): for every sane `n`,
    `Decode.fromScript ctx keyOfHash (compile ctx h160 false n) = some n'` with
    `compile ctx h160 false n' = compile ctx h160 false n`.  The decoder model
    (`Model/C15/Decode.lean`: `_decomposed` and the `_Decoder` state machine, state for state) is
-   tied by the `decode` stream (compiled scripts and op-code-aware corruptions of them); the
-   invariant proof over the machine is not done.  Instances check by evaluation: -/
+   tied by the `decode` stream (compiled scripts and op-code-aware corruptions of them).
+   Proved below: the STATE MACHINE half, for the fragment set `rd .seq` (0, 1, pk_k, pk_h, the seven
+   wrappers, and_v, and_b, or_b, or_c, or_d, or_i, andor; and_v chains nested to the left, which is
+   the tree the decoder builds for `[A] [B] [C]`).  Missing: the leaves older, after, the four
+   hashes, multi, multi_a and thresh in the machine; that `_decomposed (compile n)` IS the entry
+   list `rents n` (`Decode.rents`: observed — the `rents` oracle compares it with btclib's own
+   `_decomposed(node.script())` on every generated expression of the set, and instances check by
+   evaluation below); that the fuel `fromScript` gives (`fuelFor`) is enough. -/
+
+/-- T2'_partial (the `_Decoder` state machine reads a compiled expression back): for every
+    expression `n` of the fragment set `rd .seq` whose nodes all pass `_assert_typed` and
+    `_assert_shape`, the loop of `_Decoder.decode`, started as `from_script` starts it on the entry
+    list `rents h160 n` (`_decomposed` of the compiled script: last op code first, VERIFY forms
+    unfolded), stops with exactly `n` built, no state and no entry left — every look-ahead of the
+    machine (`_maybe_and_v`, `_wrapped`, `_endif`, `_endif_notif`, `_endif_else`, the pk_h pattern
+    of `_key` under a `v:`) decided as the compiler wrote it — for every fuel from some point on.
+    Hypotheses: `hh` hash160 answers 20 bytes; `hkoh` the caller's `key_hashes` files every key
+    under its hash160. -/
+theorem decoder_machine_reads_back_partial (ctx : Ctx) (koh : Bytes → Option Key)
+    (h160 : Bytes → Bytes) (hh : ∀ k, (h160 k).length = 20) (hkoh : ∀ k, koh (h160 k) = some k)
+    (n : Ms) (hr : Decode.rd .seq n = true) (hs : shaped ctx n = true)
+    (ht : allTyped ctx n = true) :
+    ∃ k, ∀ fuel, k ≤ fuel →
+      Decode.run ctx koh fuel (Decode.start (Decode.rents h160 n)) = some ⟨[], [], [n]⟩ :=
+  Decode.run_back ctx koh h160 hh hkoh n hr hs ht
+
+/-- non-vacuity: `or_d(pk(K),and_v(and_v(v:pkh(K'),v:pk(K)),or_i(pk(K'),0)))`-like expression is in
+    the set, shaped and typed at every node; its entry list is what the decoder model's
+    `_decomposed` answers for its compiled script; and `from_script` (with its own fuel) returns it. -/
+example :
+    let k : Key := 2 :: List.replicate 32 7
+    let k' : Key := 3 :: List.replicate 32 9
+    let h160 : Bytes → Bytes := fun b => List.replicate 19 0 ++ [b.headD 0]
+    let koh : Bytes → Option Key := fun h => if h = h160 k then some k else if h = h160 k' then some k' else none
+    let n : Ms := .bin .or_d (.wrap .c (.pk_k k))
+      (.bin .and_v (.bin .and_v (.wrap .v (.wrap .c (.pk_h k'))) (.wrap .v (.wrap .c (.pk_k k))))
+        (.bin .or_i (.wrap .c (.pk_k k')) .f0))
+    Decode.rd .seq n = true ∧ shaped .p2wsh n = true ∧ allTyped .p2wsh n = true ∧
+      Decode.decomposed (compile .p2wsh h160 false n) = some (Decode.rents h160 n) ∧
+      Decode.fromScript .p2wsh koh (compile .p2wsh h160 false n) = some n := by
+  decide +kernel
+
 example :
     let k : Key := 2 :: List.replicate 32 7
     let n : Ms := .bin .and_v (.wrap .v (.wrap .c (.pk_k k))) (.older 5)
